@@ -17,3 +17,35 @@ package isaacstates
 //@   ensures [height-mono] !old(box.lsp.value).IsZero() ==> box.lsp.value.h >= old(box.lsp.value).h
 //@   ensures [no-retake] !old(box.lsp.value).IsZero() && box.lsp.value != old(box.lsp.value) ==> !(box.lsp.value.StagePoint == old(box.lsp.value).StagePoint && box.lsp.value.isSuffrageConfirm == old(box.lsp.value).isSuffrageConfirm)
 //@   ensures [wf] wfLast(box.lsp.value)
+
+// ---- C05: the ballotbox keeps stage points isolated and releases finished ones ----
+//
+// One key function for insert, lookup and removal of a record:
+//@ global voterecordsPoolPut nonnil
+//@ spec func vrkey(sp base.StagePoint, isc bool) string = ite(isc, "sf-" + sp.String(), sp.String())
+
+//@ func (*Ballotbox).voterecords
+//@   prop C05
+//@   requires box.vrs != nil
+//@   ensures [lookup-key] r1 == mhas(box.vrs, vrkey(stagepoint, isSuffrageConfirm))
+//@   ensures [lookup-val] r1 ==> r0 == mval(box.vrs, vrkey(stagepoint, isSuffrageConfirm), r0)
+
+// assumed: the pooled constructor hands out a non-nil record initialised for this stage point
+//@ func newVoterecords
+//@   trusted
+//@   modifies *
+//@   ensures r0 != nil && r0.sp == stagepoint && r0.isc == isSuffrageConfirm
+
+//@ func (*Ballotbox).newVoterecords
+//@   prop C05
+//@   requires box.vrs != nil
+//@   callsite Set requires a0 == vrkey(stagepoint, isSuffrageConfirm)
+
+// every record scheduled for release is removed under the key it is stored under
+//@ func (*Ballotbox).clean
+//@   prop C05
+//@   requires box.vrs != nil && box.removed != nil && box.lsp != nil
+//@   requires forall(k, 0 <= k && k < len(box.removed.value) ==> box.removed.value[k] != nil)
+//@   requires forall(string(k), mhas(box.vrs, k) ==> mval(box.vrs, k, *voterecords) != nil)
+//@   callsite RemoveValue requires a0 == vrkey(vr.sp, vr.isc)
+//@   hof Traverse#0 loop invariant forall(k, 0 <= k && k < len(removed) ==> removed[k] != nil)
